@@ -288,7 +288,7 @@ INLINE_CONFIGS = {
               ("later-streams", "AlphaSmall", 1, "{1, 3, 4096}", "KindsTwo", "StylesBoth", "FollAll", "CutsFew", "TRUE", "LeadsAll")],
     "thorough": [("matcher", "Alpha6", 5, "{1, 2, 3, 7}", "KindsPlain", "StylesBoth", "FollTwo", "CutsNone", "TRUE", "NoLead"),
                  ("dict-and-cuts", "Alpha6", 2, "{1, 2, 3, 5}", "KindsAll", "StylesBoth", "FollAll", "CutsAll", "FALSE", "NoLead"),
-                 ("later-streams", "Alpha6", 2, "{1, 3, 7, 4096}", "KindsAll", "StylesBoth", "FollAll", "CutsAll", "TRUE", "LeadsAll")],
+                 ("later-streams", "Alpha6", 2, "{1, 3, 4096}", "KindsTwo", "StylesBoth", "FollAll", "CutsAll", "TRUE", "LeadsAll")],
 }
 SPACES = b"\t\n\x0b\x0c\r "
 
